@@ -73,6 +73,8 @@ func verifAssume(bool) {}
 //@ loop 1 decreases i
 // Exit assertions in the function's own row numbering. For a buffer sorted by time they say that the
 // result is exactly the rows t with Start <= t <= End (the sortedness step is not machine-checked).
+// a result row is the 8-byte epoch, the payload without its 4-byte ticks, and 4 bytes of nanoseconds: rowlen + 8 bytes
+//@ exit #stride: rowLength == rowlen + 8
 //@ exit #end: len(src)/rowLength == 0 || len(result) == i*rowLength
 //@ exit #beforeStart: len(src)/rowLength == 0 || forall(k, 0, phi(0, i), rowT(mem(src), rowAt(base(src), k, rowLength), rowLength) < abs(dr.Start))
 //@ exit #firstGeStart: (len(src)/rowLength != 0 && dest != nil) ==> rowT(mem(src), rowAt(base(src), phi(0, i), rowLength), rowLength) >= abs(dr.Start)
@@ -498,11 +500,13 @@ func lemmaTickMonotone(intervalStart uint64, intervalsPerDay uint32, t1, t2 uint
 //@ func (*Reader).readSecondStage
 //@ props C09
 //@ option noimplicit
-//@ loop 0 invariant true
+//@ loop 0 invariant #buf: totalBuf != nil
 //@ loop 1 invariant #idx: 0 <= i && numIndexRecords == len(indexBuffer)/24
 //@ loop 2 invariant #idx: 0 <= i && numIndexRecords == len(indexBuffer)/24
 //@ loop 3 invariant #idx: 0 <= i && numIndexRecords == len(indexBuffer)/24
 //@ loop 3 invariant #fits: 0 <= rbCursor && rbCursor <= len(rb) && len(rb) == totalDatalen
+// a nil result is always accompanied by an error (no silent loss of every row)
+//@ exit #errorOrData: err == nil ==> rb != nil
 
 // C03: a write set whose data file cannot be opened (bucket removed before the crash, file creation not yet durable)
 // must surface as the error kind the start-up cleaner tolerates (wal.ReplayError: the WAL is moved aside and start-up
